@@ -138,6 +138,7 @@ def h13_worker(S):
 
     fail_first_store = S.flag("first_store_fails")
     first_fails = S.flag("first_actor_fails")
+    second_later = S.flag("second_job_arrives_after_the_first_was_handled")
     out = {}
     runs = []
 
@@ -164,10 +165,16 @@ def h13_worker(S):
             return i * 2
 
         await Job("job", args={"i": 1}, id_="m1", result_id="r1", _connection=w.conn).enqueue()
-        await Job("job", args={"i": 2}, id_="m2", result_id="r2", _connection=w.conn).enqueue()
+        if not second_later:
+            await Job("job", args={"i": 2}, id_="m2", result_id="r2", _connection=w.conn).enqueue()
         worker = Worker(routers=[r], handle_signals=[], _connection=w.conn, graceful_shutdown_time=1.0, messages_limit=2, tasks_limit=1)
+        task = asyncio.create_task(worker.run())
+        if second_later:
+            await asyncio.sleep(Fraction(1, 2))
+            out["alive_after_first"] = not task.done()
+            await Job("job", args={"i": 2}, id_="m2", result_id="r2", _connection=w.conn).enqueue()
         try:
-            await asyncio.wait_for(worker.run(), timeout=20)
+            await asyncio.wait_for(task, timeout=20)
             out["returned"] = True
         except asyncio.TimeoutError:
             out["returned"] = False
@@ -179,7 +186,8 @@ def h13_worker(S):
 
     run_async(main)
     S.cover("worker-ran")
-    S.check("worker-survives-a-failing-store", out["returned"] and runs == [1, 2], info=f"runs={runs}")
+    S.check("worker-survives-a-failing-store", out["returned"] and runs == [1, 2] and out.get("alive_after_first", True),
+            info=f"runs={runs}, worker still running after the first message: {out.get('alive_after_first')}")
     S.check("first-message-disposition-kept", out["ops"]["m1"] == (["nack"] if first_fails else ["ack"]), info=str(out["ops"]))
     S.check("second-message-processed", out["ops"]["m2"] == ["ack"] and out["r2"] is not None and out["r2"].data == "4")
     if fail_first_store:
@@ -241,12 +249,14 @@ def h13_slow_broker(S):
 
 
 def h13_redis_result(S):
-    """Results kept in Redis: once the execution has finished Job.result returns its outcome with the configured
-    ttl - on a machine with any UTC offset (timestamps are local wall-clock readings, Redis expiry counts unix seconds)."""
-    from repid import Connection, InMemoryMessageBroker, Job, Router, Worker
+    """Messages and results both in Redis (wire-encoded parameters): once the execution has finished Job.result returns its
+    outcome with the configured ttl - on a machine with any UTC offset (timestamps are local wall-clock readings, Redis expiry
+    counts unix seconds); with results disabled nothing is written."""
+    from repid import Connection, Job, Router, Worker
     from repid.converter import BasicConverter
     from fakes import redis as fr
 
+    store = S.flag("store_result")
     has_ttl = S.flag("result_ttl_given")
     ttl = S.int("result_ttl", SEC, 10 * 366 * 86400 * SEC)
     fails = S.flag("actor_fails")
@@ -256,11 +266,10 @@ def h13_redis_result(S):
 
     async def main(loop):
         srv = fr.FakeServer(clock=lambda: vtime.current_clock().time())
+        srv_m = fr.FakeServer(clock=lambda: vtime.current_clock().time())
         rb = fr.mk_bucket_broker(srv, use_result_bucket=True)
-        mb = InMemoryMessageBroker()
+        mb = fr.mk_broker(srv_m)
         conn = Connection(mb, None, rb)
-        await mb.connect()
-        await mb.queue_declare("default")
         r = Router()
 
         @r.actor(converter=BasicConverter)
@@ -269,11 +278,15 @@ def h13_redis_result(S):
                 raise KeyError("k")
             return i * 2
 
-        j = Job("job", args={"i": 21}, id_="m1", result_id="r1", result_ttl=S.timedelta_us(ttl) if has_ttl else None, _connection=conn)
+        j = Job("job", args={"i": 21}, id_="m1", store_result=store, **({"result_id": "r1"} if store else {}),
+                result_ttl=S.timedelta_us(ttl) if (has_ttl and store) else None, _connection=conn)
         await j.enqueue()
         worker = Worker(routers=[r], handle_signals=[], _connection=conn, graceful_shutdown_time=1.0, messages_limit=1, tasks_limit=1)
         await asyncio.wait_for(worker.run(), timeout=20)
         out["finished_at"] = us_of(vtime.current_clock().now())
+        out["written"] = sorted(srv.kv)
+        if not store:
+            return
         out["bucket"] = await j.result
         # the same bucket read again some time later, on a clock of the harness's own
         pc = PinnedClock(out["finished_at"] + later)
@@ -286,6 +299,10 @@ def h13_redis_result(S):
 
     with vtime.local_zone(zone):
         run_async(main)
+    if not store:
+        S.cover("results-disabled")
+        S.check("nothing-written-when-results-are-disabled", out["written"] == [], info=f"keys on the results server: {out['written']}")
+        return
     S.cover("redis-result-read")
     b = out["bucket"]
     S.check("result-readable-once-the-execution-has-finished", b is not None, info=f"Job.result returned None right after the run (utc offset {zone!r} us)")
@@ -333,11 +350,11 @@ HARNESSES = [
                     "store": "fails or not", "worker": "messages_limit=1 (stops right after the message)"},
             functions=["_processor.py:_Processor.process", "worker.py:Worker.run"], covers=["slow-broker"]),
     Harness(name="H13-redis-result", scenario=h13_redis_result, workers=8,
-            bounds={"result ttl": "None or any µs in [1 s, 10 y]", "utc offset of the machine": "-12:00 .. +14:00 in quarter hours", "actor": "returns / raises",
+            bounds={"brokers": "Redis message broker and Redis result bucket broker (two fake servers)", "result storing": "on/off", "result ttl": "None or any µs in [1 s, 10 y]", "utc offset of the machine": "-12:00 .. +14:00 in quarter hours", "actor": "returns / raises",
                     "second read": "up to 12 years later"},
             functions=["connections/redis/bucket_broker.py:RedisBucketBroker.store_bucket", "connections/redis/bucket_broker.py:RedisBucketBroker.get_bucket",
                        "_processor.py:_Processor.set_result_bucket", "job.py:Job.result"],
-            covers=["redis-result-read", "redis-result-expired"],
+            covers=["redis-result-read", "redis-result-expired", "results-disabled"],
             stubs=["fake Redis server: SET with EXAT against the virtual clock's unix time; the machine's zone is a symbolic fixed offset (tzset in the replay)"]),
     Harness(name="H13-connection", scenario=h13_connection, bounds={"results broker bucket class": "ArgsBucket / ResultBucket"},
             functions=["connection.py:Connection.__post_init__"], covers=["connection-validated"]),
